@@ -76,17 +76,17 @@ package scheduler
 // never starts or creates anything.
 //@ func Scheduler.sync property C14 safety -bounds
 //@   only calls: WorkerPool.CountWorkers WorkerPool.Running ContainerQueue.Entries ContainerQueue.Forget Scheduler.cancel Scheduler.kill Scheduler.requeue
-//@   calls Scheduler.cancel#1: requires ent.Container.State == arvados.ContainerStateRunning && !running && !anyUnknownWorkers && $1 == uuid
-//@   calls Scheduler.cancel#2: requires ent.Container.State == arvados.ContainerStateRunning && running && !time.Time.IsZero(exited) && time.Time.After(qUpdated, exited) && $1 == uuid
-//@   calls Scheduler.kill#1: requires ent.Container.State == arvados.ContainerStateRunning && running && ent.Container.Priority == 0 && $1 == uuid
-//@   calls Scheduler.kill#2: requires (ent.Container.State == arvados.ContainerStateComplete || ent.Container.State == arvados.ContainerStateCancelled) && running && $1 == uuid
+//@   calls Scheduler.cancel#1: requires ent.Container.State == arvados.ContainerStateRunning && !running && !anyUnknownWorkers && $0 == uuid
+//@   calls Scheduler.cancel#2: requires ent.Container.State == arvados.ContainerStateRunning && running && !time.Time.IsZero(exited) && time.Time.After(qUpdated, exited) && $0 == uuid
+//@   calls Scheduler.kill#1: requires ent.Container.State == arvados.ContainerStateRunning && running && ent.Container.Priority == 0 && $0 == uuid
+//@   calls Scheduler.kill#2: requires (ent.Container.State == arvados.ContainerStateComplete || ent.Container.State == arvados.ContainerStateCancelled) && running && $0 == uuid
 //@   calls ContainerQueue.Forget#1: requires (ent.Container.State == arvados.ContainerStateComplete || ent.Container.State == arvados.ContainerStateCancelled) && !running && $0 == uuid
-//@   calls Scheduler.kill#3: requires ent.Container.State == arvados.ContainerStateQueued && running && $1 == uuid
+//@   calls Scheduler.kill#3: requires ent.Container.State == arvados.ContainerStateQueued && running && $0 == uuid
 //@   calls ContainerQueue.Forget#2: requires ent.Container.State == arvados.ContainerStateQueued && !running && ent.Container.Priority == 0 && $0 == uuid
-//@   calls Scheduler.requeue#1: requires ent.Container.State == arvados.ContainerStateLocked && running && !time.Time.IsZero(exited) && time.Time.After(qUpdated, exited) && $1 == ent
-//@   calls Scheduler.kill#4: requires ent.Container.State == arvados.ContainerStateLocked && running && time.Time.IsZero(exited) && ent.Container.Priority == 0 && $1 == uuid
-//@   calls Scheduler.requeue#2: requires ent.Container.State == arvados.ContainerStateLocked && !running && ent.Container.Priority == 0 && $1 == ent
-//@   calls Scheduler.kill#5: requires !has(qEntries, uuid) && $1 == uuid
+//@   calls Scheduler.requeue#1: requires ent.Container.State == arvados.ContainerStateLocked && running && !time.Time.IsZero(exited) && time.Time.After(qUpdated, exited) && $0 == ent
+//@   calls Scheduler.kill#4: requires ent.Container.State == arvados.ContainerStateLocked && running && time.Time.IsZero(exited) && ent.Container.Priority == 0 && $0 == uuid
+//@   calls Scheduler.requeue#2: requires ent.Container.State == arvados.ContainerStateLocked && !running && ent.Container.Priority == 0 && $0 == ent
+//@   calls Scheduler.kill#5: requires !has(qEntries, uuid) && $0 == uuid
 //@   at loop 1 back: assert (ent.Container.State == arvados.ContainerStateComplete || ent.Container.State == arvados.ContainerStateCancelled || ent.Container.State == arvados.ContainerStateQueued) && running ==> nkill == nkill0 + 1
 //@   ghost nkill int = 0
 //@   ghost nkill0 int = 0
